@@ -554,6 +554,9 @@ func (e *Exec) onPersistRound() {
 	simrt.NoPreempt(true)
 	defer simrt.NoPreempt(false)
 	j := e.checkStore("persist-round")
+	if e.noRoundChecks || e.store == nil {
+		return // the driver closed the store while this callback was looking at it
+	}
 	e.fs.MarkOp("round", j, !e.opts.NoSync)
 	if ss, err := e.store.Snapshot(); err == nil && ss != nil {
 		if f, ok := ss.(*moss.Footer); ok && !footerHasSegments(f) {
@@ -893,6 +896,8 @@ func (e *Exec) readPathsAgree(ss moss.Snapshot, want *Node, probes []string) *mi
 	return nil
 }
 
+var errStoreGone = fmt.Errorf("store closed")
+
 // lowerContent returns the content of the lower level (store snapshot or map).
 func (e *Exec) lowerContent() (*Node, moss.Snapshot, error) {
 	if e.store != nil {
@@ -902,6 +907,11 @@ func (e *Exec) lowerContent() (*Node, moss.Snapshot, error) {
 		}
 		if ss == nil {
 			return NewNode(), nil, nil
+		}
+		if f, ok := ss.(*moss.Footer); ok && f == nil {
+			// the driver has closed the store in the meantime (close order
+			// "store first"): nothing to look at
+			return nil, nil, errStoreGone
 		}
 		n, err := dumpSnapshot(ss)
 		if err != nil {
@@ -927,6 +937,9 @@ func (e *Exec) checkStore(why string) int {
 	// reading an older - perfectly legitimate - snapshot.
 	lb0 := e.lb
 	content, ss, err := e.lowerContent()
+	if err == errStoreGone && e.noRoundChecks {
+		return e.lb
+	}
 	if err != nil {
 		e.failD("store-read-error", map[string]string{"symptom": "error", "where": "store"}, "reading the lower level (%s): %v", why, err)
 	}
